@@ -504,6 +504,26 @@ def check(ctx):
                       "a constraint failure is raised without the pending children errors: sibling violations are hidden", vc, n)
 
     constraints_loop_rule(ctx, vc)
+    # ---------------- R10: order of the flattened errors
+    ctx.rule("C02.R10", "ValidationError.errors lists children in natural key order (indices numerically); the stringifying sort key is only the fallback for incomparable keys", floor=2)
+    em = model.func(f"{ERRORS_MOD}.ValidationError._errors")
+    epar = stmt_parent_map(em.node)
+    sorts = [c for c in ast.walk(em.node) if isinstance(c, ast.Call) and dotted(c.func) == "sorted" and c.args and "children" in norm(c.args[0])]
+    natural = [c for c in sorts if not c.keywords]
+    ctx.check(bool(natural), "C02.R10", f"{em.qualname}:natural", em.node.body[0],
+              "children keys are never sorted in their natural order: indices are reported in dict / string order (10 before 2)", em, em.node, detail="sorted(self.children)")
+    for c in sorts:
+        if not c.keywords:
+            continue
+        h = c
+        while h is not None and not isinstance(h, ast.ExceptHandler):
+            h = epar.get(h)
+        ok = False
+        if h is not None and h.type is not None and "TypeError" in norm(h.type):
+            tr = epar.get(h)
+            ok = isinstance(tr, ast.Try) and any(n_ in natural for s_ in tr.body for n_ in ast.walk(s_))
+        ctx.check(ok, "C02.R10", f"{em.qualname}:keyed-sort", c,
+                  f"`{short(c, 60)}`: a sort key is applied to the children keys outside the `except TypeError` fallback of the natural sort: integer indices are then ordered as strings", em, c, detail="only as the fallback of sorted(self.children)")
     # ---------------- R5: set order
     r5(ctx)
     # ---------------- R6
@@ -661,6 +681,8 @@ def mutants(mb):
     mb.add_text("carry-and-object", P, "        elif field_errors or errors:\n            raise ValidationError(errors or [], field_errors or {})", "        elif field_errors or errors:\n            raise ValidationError(errors and [], field_errors or {})", "C02.R9", "carry:errors")
     mb.add_text("neg-vc-simple-loop", P, "    for i in range(len(constraints)):\n        constraint: Constraint = constraints[i]\n        if not constraint.validate(data):\n            errors: List[str] = [format_error(constraint.error, data)]\n            for j in range(i + 1, len(constraints)):\n                constraint = constraints[j]\n                if not constraint.validate(data):\n                    errors.append(format_error(constraint.error, data))\n            raise ValidationError(errors, children_errors or {})\n",
                 "    errors: List[str] = []\n    for constraint in constraints:\n        if not constraint.validate(data):\n            errors.append(format_error(constraint.error, data))\n    if errors:\n        raise ValidationError(errors, children_errors or {})\n", negative=True)
+    mb.add_text("errors-always-keyed-sort", "apischema/validation/errors.py", "        try:\n            child_keys = sorted(self.children)\n        except TypeError:  # keys of different types, e.g. str and int\n            child_keys = sorted(\n                self.children, key=lambda key: (key.__class__.__name__, str(key))\n            )\n", "        child_keys = sorted(\n            self.children, key=lambda key: (key.__class__.__name__, str(key))\n        )\n", "C02.R10", "_errors")
+    mb.add_text("errors-unsorted", "apischema/validation/errors.py", "        try:\n            child_keys = sorted(self.children)\n        except TypeError:  # keys of different types, e.g. str and int\n            child_keys = sorted(\n                self.children, key=lambda key: (key.__class__.__name__, str(key))\n            )\n", "        child_keys = list(self.children)\n", "C02.R10", "_errors")
     mb.add_text("flattened-fbd-polarity", P, "                    if not flattened_field.fall_back_on_default:", "                    if flattened_field.fall_back_on_default:", "C02.R7", "ObjectMethod:aggregate")
     mb.add_text("pattern-children-dropped", P, "                    if not pattern_field.fall_back_on_default:\n                        errors = extend_errors(errors, err.messages)\n                        field_errors = update_children_errors(\n                            field_errors, err.children\n                        )", "                    if not pattern_field.fall_back_on_default:\n                        errors = extend_errors(errors, err.messages)", "C02.R7", "ObjectMethod:aggregate:halves")
     mb.add_text("optout-polarity", P, "                    if field.required or not field.fall_back_on_default:\n                        field_errors = set_child_error(field_errors, field.alias, err)\n            elif field.required:\n                field_errors = set_child_error(\n                    field_errors, field.alias, ValidationError(self.missing)\n                )\n        has_discriminator", "                    if field.required or field.fall_back_on_default:\n                        field_errors = set_child_error(field_errors, field.alias, err)\n            elif field.required:\n                field_errors = set_child_error(\n                    field_errors, field.alias, ValidationError(self.missing)\n                )\n        has_discriminator", "C02.R7", "SimpleObjectMethod:child")
